@@ -621,6 +621,25 @@ def check_C09(tier):
     return v.finish()
 
 
+JOININD_TWINS = [
+    ("JoinRst", "ELSE n' = n + 1 /\\ oldest' = (IF n = 0 THEN now ELSE oldest) /\\ passAt' = passAt",
+     "ELSE n' = n + 1 /\\ oldest' = (IF n = 0 THEN now ELSE oldest) /\\ passAt' = (IF now - passAt >= tmo THEN now ELSE passAt)",
+     "passAt reset by an arriving element once the timeout has expired (seeded change C10-a)"),
+    ("JoinSkip", "  /\\ IF now - passAt >= tmo\n       THEN n' = 0 /\\ oldest' = -1 /\\ passAt' = now                 \\* pass() with or without",
+     "  /\\ IF now - passAt >= tmo /\\ n = 0\n       THEN n' = 0 /\\ oldest' = -1 /\\ passAt' = now                 \\* pass() with or without",
+     "a timeouted tick ignored while something is pending (seeded change C10-d)"),
+    ("JoinRearm", "  /\\ nextTick' = nextTick + per\n", "  /\\ nextTick' = (IF now - passAt >= tmo THEN nextTick + tmo ELSE nextTick + per)\n",
+     "ticker re-armed with the timeout after a timeouted tick (seeded change C10-b)"),
+]
+
+
+def joinind_C10(v, sc):
+    """C10 for EVERY Timeout, ticker period <= Timeout, JoinSize and arrival pattern (ready consumer, urgent regime): JoinInd.tla, Apalache"""
+    apalache_inductive(v, sc, "JoinInd", JOININD_TWINS, "apalache_inductive_flush_bound", stage_specs)
+    v.notes.append("C10 residence bound (now - oldest < Timeout + ticker period) proved inductive for every Timeout, period, JoinSize and arrival "
+                   "pattern on the counter abstraction JoinInd.tla (Apalache); twins: " + "; ".join(t[3] for t in JOININD_TWINS) + " - each rejected")
+
+
 def check_C10(tier):
     v = Verdict("C10", tier, "model_checking")
     jobs = [("MC_Join", big(tier, "MC_Join_ready"), "v2 join, urgent regime with ready consumer"),
@@ -628,6 +647,7 @@ def check_C10(tier):
 
     def scheds(v, sc, rng):
         out, extra = [], {}
+        joinind_C10(v, sc)
         for what in ("join", "unite"):
             s, info = tlc_schedules(v, sc, rng, what, n_of(tier, 400, 20000))
             for x in s:
